@@ -122,3 +122,31 @@ Section Generic.
       destruct (env_decode _ _ itok _ _ n); cbn; try discriminate. intros [= <-]. reflexivity.
   Qed.
 End Generic.
+
+(* the end-to-end reading of C06 under an explicit unforgeability premise: if the only messages that verify
+   under a principal's key are encodings of signed parts that principal produced ([signed d]), then the signed
+   part of every accepted envelope is, up to the order of map entries, one of those: header, tag and payload
+   are what the issuer signed *)
+Section Unforgeable.
+  Variable verify : did -> str -> str -> bool.
+  Variable header_of : did -> res str.
+  Variable signed : did -> list node.
+  Hypothesis unforgeable : forall d m s, verify d m s = true -> exists sp, In sp (signed d) /\ wf sp /\ m = encode sp.
+
+  Theorem accepted_content_was_signed (A : Type) (bind : node -> res A) tag n a :
+    wf n -> env_decode verify header_of A bind tag n = Ok a ->
+    exists sg hdr m d sp iss pm pl,
+      n = List [Bytes sg; Map m] /\
+      (m = [(hdr_key, Bytes hdr); (tag, pl)] \/ m = [(tag, pl); (hdr_key, Bytes hdr)]) /\ pl = Map pm /\
+      map_get (lit "iss") pm = Some (Str iss) /\ did_parse iss = Ok d /\
+      In sp (signed d) /\ canon sp = canon (Map m) /\ bind pl = Ok a.
+  Proof.
+    intros Hw H. apply accept_verified in H as (sg & hdr & pl & pm & iss & d & m & Hn & Hm & Hpl & Hi & Hd & Hh & Hv & Hb).
+    destruct (unforgeable d _ _ Hv) as (sp & Hin & Hwsp & He).
+    assert (Hwm : wf (Map m)).
+    { subst n. apply wf_list in Hw as [_ Hw]. inversion Hw as [|? ? _ Hw2]; subst. inversion Hw2; subst. assumption. }
+    exists sg, hdr, m, d, sp, iss, pm, pl. repeat (split; [assumption|]). split; [|exact Hb].
+    assert (E : encode sp ++ [] = encode (Map m) ++ []) by (rewrite !app_nil_r; symmetry; exact He).
+    apply (encode_injective sp (Map m) [] [] Hwsp Hwm) in E as [E _]. exact E.
+  Qed.
+End Unforgeable.
